@@ -57,6 +57,8 @@ def check(ctx):
     from . import c06
     ctx.sub(c06.handler)            # "never dropped": an order is refused for lack of a price only if no data source quotes the asset at that time
     ctx.sub(s6_hours)
+    from . import c18
+    ctx.sub(c18.state_scan, ('SimulatedExchange',))     # what the exchange remembers between queries must not change what it answers
 
 
 # ---------------------------------------------------------------------------------------------- S1
